@@ -96,3 +96,22 @@ O("C08.epoch.roundtrip.stratum", ["C08"], "h_C08_epoch.c", "h_C08_epoch_roundtri
 O("C08.tstamp", ["C08", "C04"], "h_C08_tstamp.c", "h_C08_tstamp",
   "instant_to_tstamp(i) (the value the daemon arms its timer with) is exactly the unix time of the instant, for every valid instant 1901..2099",
   ["instant_to_tstamp"], defines=["-DTS_YLO=1901U"], solver=["minisat", "kissat", "z3"], timeout={"quick": 900, "thorough": 1800}, **ECHSD_NATIVE)
+
+# ------------------------------------------------------------------ C19
+P("C19", level="proof",
+  level_text="Contracts over the whole abstract view (the set as bit masks) on the real bitint.h / bitint.c code, discharged by CBMC for every representable container state and every value of the documented range: insertion is set union, membership test is membership, one iterator call delivers the first undelivered member and a non-zero cursor past it (or ends), and - machine-checked from that contract - a full iteration yields each member exactly once and stops.",
+  level_note="Trusted: CBMC semantics; the view definitions in spec_view.h (taken from the representation comments in bitint.h). The iteration lemma (collect loops) uses the iterator contracts that the *_next obligations discharge.",
+  not_covered=[])
+for t, u in (("bui31", 34), ("bui63", 66), ("bi31", 34), ("bi63", 66)):
+    O("C19.ass_%s" % t, "C19", "h_C19.c", "h_C19_ass_%s" % t,
+      "ass_%s: for every well-formed container and every value of the range, the result is well-formed and its view is the old view plus the value; has_bit_p agrees with the view" % t,
+      ["ass_%s" % t] + (["%s_has_bit_p" % t] if t.endswith("31") else []), solver=["minisat", "kissat"])
+    O("C19.%s_next" % t, ["C19", "C01"], "h_C19.c", "h_C19_%s_next" % t,
+      "%s_next: for every well-formed container and every reachable cursor the call delivers the first undelivered member in rank order with a non-zero cursor past it, or cursor 0 when none is left" % t,
+      ["%s_next" % t], unwind=u, solver=["minisat", "kissat"])
+for t in ("bui31", "bui63", "bi31", "bi63"):
+    O("C19.collect_%s" % t, "C19", "h_C19.c", "h_C19_collect_%s" % t,
+      "%s: a complete iteration in the callers' protocol yields each member exactly once, nothing else, and ends (lemma L-C19 checked from the iterator contract with an inductive loop invariant)" % t,
+      ["%s_next" % t], dfcc=True, replace=["%s_next" % t], loop_contracts=True,
+      replace_status={"%s_next" % t: "discharged by C19.%s_next" % t},
+      solver=["minisat", "kissat"], timeout={"quick": 600, "thorough": 1800})
